@@ -5,3 +5,4 @@ import Resynth.Model.Tcp
 import Resynth.Model.Flows
 import Resynth.Model.Pcap
 import Resynth.Model.Syntax
+import Resynth.Model.Lit
